@@ -213,3 +213,88 @@ def appended(body, fn, lst):
                 st.value.func.attr == "append" and pyfe.src(st.value.func.value) == lst:
             out.append((st, rat(Inliner(defs, stop=env).visit(ast.parse(pyfe.src(st.value.args[0]), mode="eval").body), env)))
     return out
+
+
+# ------------------------------------------------------------------------------------------------ store-passing evaluation
+class _EnvSub(ast.NodeTransformer):
+    def __init__(self, env):
+        self.env = env
+
+    def visit_Name(self, n):
+        if isinstance(n.ctx, ast.Load) and n.id in self.env:
+            return _cp(self.env[n.id])
+        return n
+
+    def visit_Lambda(self, n):
+        return n
+
+    def visit_ListComp(self, n):
+        return n
+    visit_GeneratorExp = visit_SetComp = visit_DictComp = visit_ListComp
+
+
+def _cp(e):
+    return ast.parse(pyfe.src(e), mode="eval").body
+
+
+def exec_returns(fn, params_opaque=True):
+    """Symbolic execution of a loop-free function body (use pynorm.unrolled first when it has literal loops): every local
+    is replaced by its value expression; a local assigned under `if c:` becomes `(then if c else before)`.
+    Returns [(Return node, value expression over parameters / attributes / calls, [path conditions])].
+    Raises NotModelled for loops, try/with, tuple targets, or subscript / attribute stores to tracked names."""
+    out = []
+
+    def sub(e, env):
+        return _EnvSub(env).visit(_cp(e))
+
+    def merge(test, a, b, before):
+        env = {}
+        for k in set(a) | set(b):
+            va, vb = a.get(k), b.get(k)
+            if va is None or vb is None:
+                # defined on one side only: usable only under that side; keep the defined one guarded by the test
+                v = va if va is not None else vb
+                env[k] = v
+                continue
+            if pyfe.src(va) == pyfe.src(vb):
+                env[k] = va
+            else:
+                env[k] = ast.IfExp(test=_cp(test), body=va, orelse=vb)
+        return env
+
+    def run(stmts, env, conds):
+        """returns env after stmts, or None when every path returned / raised"""
+        for st in stmts:
+            if isinstance(st, ast.Expr):
+                continue
+            if isinstance(st, ast.Assign) and len(st.targets) == 1 and isinstance(st.targets[0], ast.Name):
+                env = dict(env)
+                env[st.targets[0].id] = sub(st.value, env)
+            elif isinstance(st, ast.AugAssign) and isinstance(st.target, ast.Name):
+                env = dict(env)
+                cur = env.get(st.target.id, ast.Name(id=st.target.id, ctx=ast.Load()))
+                env[st.target.id] = ast.BinOp(left=_cp(cur), op=st.op, right=sub(st.value, env))
+            elif isinstance(st, ast.If):
+                t = sub(st.test, env)
+                a = run(st.body, env, conds + [(t, True)])
+                b = run(st.orelse, env, conds + [(t, False)])
+                if a is None and b is None:
+                    return None
+                if a is None:
+                    env = b
+                elif b is None:
+                    env = a
+                else:
+                    env = merge(t, a, b, env)
+            elif isinstance(st, ast.Return):
+                out.append((st, sub(st.value, env) if st.value is not None else None, list(conds)))
+                return None
+            elif isinstance(st, ast.Raise):
+                return None
+            elif isinstance(st, ast.Pass):
+                continue
+            else:
+                raise NotModelled(type(st).__name__ + ": " + pyfe.src(st)[:60])
+        return env
+    run([s for s in fn.body], {}, [])
+    return out
